@@ -60,6 +60,7 @@ theorem C02_literal_matches_struct (sec : Bool) (cfg : Cfg) (op : Operation) (rf
       have h2 : lit.map (·.1) = op.params.map identOf := by
         refine mapE_ok_map _ _ _ _ _ hl (fun a b _ hb => ?_)
         unfold identOf
+        unfold litOf at hb
         split at hb
         · rename_i i hi; simp at hb; subst hb; simp [hi]
         · simp at hb
@@ -102,6 +103,7 @@ theorem C02_mandatory_arguments (sec : Bool) (cfg : Cfg) (op : Operation) (rf : 
         refine ⟨rfl, ?_⟩
         refine mapE_ok_map _ _ _ _ _ hargs (fun a b _ hb => ?_)
         unfold identOf
+        unfold argOf at hb
         split at hb
         · rename_i i t hi _; simp at hb; subst hb; simp [hi]
         all_goals simp at hb
